@@ -471,6 +471,58 @@ func Gen(t *T, rng *core.Rng, size int) []byte {
 	panic("unknown kind")
 }
 
+// Default: the encoding of the type's default value (zeroes, empty lists).
+func Default(t *T) []byte {
+	switch t.Kind {
+	case KUint, KBytesN:
+		return make([]byte, t.Size)
+	case KBool:
+		return []byte{0}
+	case KByteList:
+		return nil
+	case KBitvector:
+		return make([]byte, (t.Size+7)/8)
+	case KBitlist:
+		return []byte{1}
+	case KList:
+		return nil
+	case KVector:
+		var out []byte
+		if t.Elem.FixedSize() != 0 {
+			for i := uint64(0); i < t.Size; i++ {
+				out = append(out, Default(t.Elem)...)
+			}
+			return out
+		}
+		out = make([]byte, 4*t.Size)
+		for i := uint64(0); i < t.Size; i++ {
+			binary.LittleEndian.PutUint32(out[4*i:], uint32(len(out)))
+			out = append(out, Default(t.Elem)...)
+		}
+		return out
+	case KContainer:
+		var fixed, heap []byte
+		var patch []int
+		var dyn [][]byte
+		for _, f := range t.Fields {
+			p := Default(f.T)
+			if f.T.FixedSize() != 0 {
+				fixed = append(fixed, p...)
+			} else {
+				patch = append(patch, len(fixed))
+				fixed = append(fixed, 0, 0, 0, 0)
+				dyn = append(dyn, p)
+			}
+		}
+		for i, p := range dyn {
+			binary.LittleEndian.PutUint32(fixed[patch[i]:], uint32(len(fixed)+len(heap)))
+			heap = append(heap, p...)
+		}
+		return append(fixed, heap...)
+	}
+	return nil
+}
+
 func fill(b []byte, rng *core.Rng) {
 	for i := 0; i < len(b); i += 8 {
 		v := rng.U64()
